@@ -433,6 +433,12 @@ func (en *DefaultEngine) init(ctx context.Context, input []byte) (bool, error) {
 		return false, fmt.Errorf("start sym empty")
 	}
 
+	if len(input) > 0 {
+		_, err = vm.ValidInput(input)
+		if err != nil {
+			return true, err
+		}
+	}
 	inSave, _ := en.st.GetInput()
 	err = en.st.SetInput(input)
 	if err != nil {
@@ -484,7 +490,7 @@ func (en *DefaultEngine) Exec(ctx context.Context, input []byte) (bool, error) {
 
 	cont, err := en.init(ctx, input)
 	if err != nil {
-		return false, err
+		return cont, err
 	}
 	if !cont {
 		return cont, nil
